@@ -125,6 +125,13 @@ Section AL2.
   Qed.
 End AL2.
 
+(* repair F10e: the stale key deleted by _add_watch only shrinks _wd_for_path *)
+Lemma unlabel_snd C r wd p v : In v (map snd (unlabel C r wd p)) -> In v (map snd (wfp r)).
+Proof. intros H. apply in_map_iff in H as [x [<- Hx]]. apply in_map. eapply unlabel_in. exact Hx. Qed.
+
+Lemma unlabel_fst C r wd p v : In v (map fst (unlabel C r wd p)) -> In v (map fst (wfp r)).
+Proof. intros H. apply in_map_iff in H as [x [<- Hx]]. apply in_map. eapply unlabel_in. exact Hx. Qed.
+
 (* [gone wd r k]: the descriptor is below the kernel's counter, belongs to no kernel watch and occurs nowhere in the
    reader's tables - it can never come back (descriptors are not reused) *)
 Definition gone (wd : N) (r : rstate) (k : kst) : Prop :=
@@ -163,7 +170,7 @@ Section Gone.
     destruct (kadd_watch_gone wd _ _ _ _ _ _ E G1 G2) as [A [B D]].
     split; [exact B|]. split; [exact D|]. cbn [pfw wfp]. split.
     - intros Hin. apply aset_fst in Hin as [->|Hin]; [now apply A | now apply G3].
-    - intros Hin. apply aset_snd in Hin as [->|Hin]; [now apply A | now apply G4].
+    - intros Hin. apply aset_snd in Hin as [->|Hin]; [now apply A | apply unlabel_snd in Hin; now apply G4].
   Qed.
 
   Lemma bump_gone r k : gone wd r k -> gone wd (bump r) k.
